@@ -118,6 +118,11 @@ func (g *Gen) loopWrites(li *loopInfo) (objs []string, regions []region, allocs 
 				bv := g.val(a.X)
 				switch u := a.X.Type().Underlying().(type) {
 				case *types.Pointer:
+					if os := g.lay.view.opaqueSort(u.Elem()); os != "" {
+						// a limb store into an element that this view keeps as one opaque cell
+						addRegion(region{os, bv.S[0], bv.S[1], addOff(bv.S[1], 1), 1})
+						return
+					}
 					if arr, isArr := u.Elem().Underlying().(*types.Array); isArr {
 						n := int(arr.Len()) * g.lay.Size(arr.Elem())
 						addRegion(region{g.sortsOf(arr.Elem()), bv.S[0], bv.S[1], addOff(bv.S[1], n), n})
@@ -551,6 +556,23 @@ func (g *Gen) instr(ins ssa.Instruction) {
 		obj := g.allocAt(x)
 		g.vals[x] = &Val{T: x.Type(), Sort: "Ptr", S: []string{obj, "0"}}
 	case *ssa.Store:
+		// opaque view: z[k] = v on a scalar-field element replaces the one opaque cell by an unknown value whose k-th
+		// Montgomery limb is v and whose other limbs are unchanged (spec/field.smt2: fr_mlimb)
+		if ia, ok := x.Addr.(*ssa.IndexAddr); ok {
+			if pt, ok := ia.X.Type().Underlying().(*types.Pointer); ok && g.lay.view.opaqueSort(pt.Elem()) == "Fr" {
+				bp := g.val(ia.X)
+				g.nilCheck(bp, x.Pos(), "store")
+				_ = g.val(x.Addr) // index-in-range obligation
+				idx := g.val(ia.Index).S[0]
+				oldc := g.def("oldcell", "Fr", sel2(g.heap["Fr"], bp.S[0], bp.S[1]))
+				nc := g.freshConst("limbstore", "Fr")
+				g.assume(fmt.Sprintf("(forall ((j Int)) (! (= (fr_mlimb %s j) (ite (= j %s) %s (fr_mlimb %s j))) :pattern ((fr_mlimb %s j))))", nc, idx, g.val(x.Val).S[0], oldc, nc))
+				g.heap["Fr"] = g.def("HFr", g.heapSort("Fr"), store2(g.heap["Fr"], bp.S[0], bp.S[1], nc))
+				g.eng.onStore(g, x, bp)
+				g.atPoint("store", "", x, x.Pos())
+				return
+			}
+		}
 		addr := g.val(x.Addr)
 		g.nilCheck(addr, x.Pos(), "store")
 		elem := x.Addr.Type().Underlying().(*types.Pointer).Elem()
@@ -726,6 +748,17 @@ func (g *Gen) unop(x *ssa.UnOp) *Val {
 	switch x.Op {
 	case token.MUL: // load
 		g.nilCheck(v, x.Pos(), "load")
+		// opaque view: z[k] of a scalar-field element is the k-th Montgomery limb of the one opaque cell
+		// (fr_mlimb of spec/field.smt2), not an unrelated integer cell
+		if ia, ok := x.X.(*ssa.IndexAddr); ok {
+			if pt, ok := ia.X.Type().Underlying().(*types.Pointer); ok && g.lay.view.opaqueSort(pt.Elem()) == "Fr" {
+				bp := g.val(ia.X)
+				idx := g.val(ia.Index).S[0]
+				n := g.def("ld_"+x.Name(), "Int", fmt.Sprintf("(fr_mlimb %s %s)", sel2(g.heap["Fr"], bp.S[0], bp.S[1]), idx))
+				g.assume(fmt.Sprintf("(and (<= 0 %s) (< %s 18446744073709551616))", n, n))
+				return scalar("Int", n, x.Type())
+			}
+		}
 		if _, _, isInt := intInfo(x.Type()); isInt && len(v.S) >= 2 {
 			for _, cc := range g.cellConst {
 				if cc[0] == v.S[0] && cc[1] == v.S[1] {
